@@ -336,7 +336,14 @@ class Gen:
         elif b == "tight-cycle":
             ss += self.tight_cycle()
         elif b == "for-accumulate":
-            ss += [self.for_accumulate()]
+            loop = self.for_accumulate()
+            if self.r.random() < 0.4:
+                # nested in a loop that overwrites a source of the accumulation first: only what rule L propagated to the
+                # guard's row carries the flow outwards
+                vs_ = list(self.vars)
+                pre_ = [("s", f"{self.r.choice(vs_)} = {self.r.choice(['0', '1', self.r.choice(vs_)])};")]
+                loop = (self.r.choice(["while", "while", "dowhile"]), self.cond(), ("block", pre_ + [loop]))
+            ss += [loop]
         elif b == "pair-cycle":
             ss += self.pair_cycle()
         elif b == "branch-accumulate":
